@@ -996,7 +996,7 @@ func gen(tier string, seed uint64) []runner.Scenario {
 	// client side only: on the server side the handler's context is cancelled by the disconnect itself,
 	// so a write that fails because the peer is gone precedes the cancellation and may report the transport's error
 	for _, side := range []string{"client"} {
-		for _, frame := range []int{1, 2, 7, 14} {
+		for _, frame := range []int{1, 2, 7, 14, 15, 16} {
 			for _, raw := range []bool{false, true} {
 				side, frame, raw := side, frame, raw
 				id := fmt.Sprintf("mid-message/%s/frame=%d/raw=%v", side, frame, raw)
